@@ -51,10 +51,13 @@ type C12Conc struct {
 
 // Abstract relation of Access_MC!MCMember / MCZoned / MCWFItems.
 var (
-	C12WFItems = []string{"A", "B", "C"}
-	C12Items   = []string{"A", "B", "C", "bad33", "notanip", "notype", "unktype"}
-	C12Addrs   = []string{"inA", "inB", "out4", "inC", "out6", "zoneC"}
-	c12Member  = map[[2]string]bool{{"inA", "A"}: true, {"inB", "B"}: true, {"inC", "C"}: true, {"zoneC", "C"}: true}
+	C12WFItems = []string{"A", "B", "C", "An", "Ah", "Cn"}
+	C12Items   = []string{"A", "B", "C", "An", "Ah", "Cn", "bad33", "notanip", "notype", "unktype"}
+	C12Addrs   = []string{"inA", "inB", "out4", "inC", "out6", "zoneC", "inAn", "isAh", "inCn"}
+	c12Member  = map[[2]string]bool{{"inA", "A"}: true, {"inB", "B"}: true, {"inC", "C"}: true, {"zoneC", "C"}: true,
+		// nested blocks: An lies inside A (same network address), Ah is that network address as a host, Cn lies inside C
+		{"inAn", "A"}: true, {"inAn", "An"}: true, {"isAh", "A"}: true, {"isAh", "An"}: true, {"isAh", "Ah"}: true,
+		{"inCn", "C"}: true, {"inCn", "Cn"}: true}
 	c12Zoned   = map[string]bool{"zoneC": true}
 )
 
@@ -63,25 +66,31 @@ var (
 // decision the check asserts.
 var C12Lab = &C12Conc{Name: "lab",
 	Item: map[string]string{"A": "ip:10.0.0.0/8", "B": "ip:192.168.1.7", "C": "ip:fe80::/10",
+		"An": "ip:10.0.0.0/24", "Ah": "ip:10.0.0.0", "Cn": "ip:fe80::/64",
 		"bad33": "ip:10.0.0.0/33", "notanip": "ip:notanip", "notype": "172.16.0.0/12", "unktype": "host:172.16.0.0/12"},
 	Addr: map[string]string{"inA": "10.1.2.3", "inB": "192.168.1.7", "out4": "203.0.113.9",
-		"inC": "fe80::1", "out6": "2001:db8::1", "zoneC": "fe80::1%eth0"}}
+		"inC": "fe80:5::1", "out6": "2001:db8::1", "zoneC": "fe80:5::1%eth0",
+		"inAn": "10.0.0.9", "isAh": "10.0.0.0", "inCn": "fe80::1"}}
 
 // boundary addresses: last address of A, the address just above it (and just below B), the
 // top of the /10 and the first address after it
 var C12Edge = &C12Conc{Name: "edge",
 	Item: map[string]string{"A": "ip:9.0.0.0/8", "B": "ip:10.0.0.1", "C": "ip:fc00::/10",
+		"An": "ip:9.0.0.0/9", "Ah": "ip:9.0.0.0", "Cn": "ip:fc00::/11",
 		"bad33": "ip:9.0.0.0/33", "notanip": "ip:9.0.0.256", "notype": "172.16.0.0/12", "unktype": "cidr:172.16.0.0/12"},
 	Addr: map[string]string{"inA": "9.255.255.255", "inB": "10.0.0.1", "out4": "10.0.0.0",
-		"inC": "fc3f:ffff:ffff:ffff:ffff:ffff:ffff:ffff", "out6": "fc40::", "zoneC": "fc00::7%lo"}}
+		"inC": "fc3f:ffff:ffff:ffff:ffff:ffff:ffff:ffff", "out6": "fc40::", "zoneC": "fc20::7%lo",
+		"inAn": "9.127.255.255", "isAh": "9.0.0.0", "inCn": "fc1f:ffff:ffff:ffff:ffff:ffff:ffff:ffff"}}
 
 // end to end from loopback: every 127/8 address is local on Linux, so the client can choose
 // its source address; the only IPv6 source is ::1
 var C12Loop = &C12Conc{Name: "loop",
 	Item: map[string]string{"A": "ip:127.10.0.0/16", "B": "ip:127.0.0.2", "C": "ip:::/10",
+		"An": "ip:127.10.0.0/24", "Ah": "ip:127.10.0.0", "Cn": "ip:0:0:1::/48",
 		"bad33": "ip:127.0.0.0/33", "notanip": "ip:notanip", "notype": "127.99.0.0/16", "unktype": "host:127.99.0.0/16"},
-	Addr: map[string]string{"inA": "127.10.0.1", "inB": "127.0.0.2", "out4": "127.0.0.1",
-		"inC": "::1", "out6": "2001:db8::1", "zoneC": "::2%lo"}}
+	Addr: map[string]string{"inA": "127.10.1.1", "inB": "127.0.0.2", "out4": "127.0.0.1",
+		"inC": "::1", "out6": "2001:db8::1", "zoneC": "::2%lo",
+		"inAn": "127.10.0.9", "isAh": "127.10.0.0", "inCn": "0:0:1::1"}}
 
 // C12LinkLocal returns the concretisation used for a REAL zone-scoped peer: a link-local
 // address of this host (connecting from it yields RemoteAddr "[fe80::x%ifc]:port"), or nil.
@@ -108,6 +117,8 @@ func C12LinkLocal() *C12Conc {
 				c.Addr[k] = v
 			}
 			c.Item["C"] = "ip:fe80::/10"
+			c.Item["Cn"] = "ip:fe80:0:0:7::/64"
+			c.Addr["inCn"] = "fe80:0:0:7::1"
 			c.Addr["inC"] = "fe80::2"
 			c.Addr["zoneC"] = ipn.IP.String() + "%" + ifc.Name
 			return c
@@ -439,7 +450,7 @@ func (cc *C12Conc) CheckConc() error {
 func (c *C12Case) CfgClass() string {
 	bad := func(xs []string) bool {
 		for _, x := range xs {
-			if x != "A" && x != "B" && x != "C" {
+			if x != "A" && x != "B" && x != "C" && x != "An" && x != "Ah" && x != "Cn" {
 				return true
 			}
 		}
@@ -529,4 +540,81 @@ func (c *C12Case) Allowed(outcome string) bool {
 		}
 	}
 	return false
+}
+
+// ---------------------------------------------------------------- routes with several targets
+
+type C12Rules struct {
+	Allow []string `json:"allow"`
+	Deny  []string `json:"deny"`
+}
+
+// C12Multi is one line of the AccessMulti_MC generator: a route with two targets that carry their
+// own rules, the state of the two instances, a request, and the outcomes the specification permits
+// ("served1" / "served2" = reached that instance, "deny" = 403 / closed, "fail" = could not connect).
+type C12Multi struct {
+	T1       C12Rules `json:"t1"`
+	T2       C12Rules `json:"t2"`
+	Up1      bool     `json:"up1"`
+	Up2      bool     `json:"up2"`
+	Proto    string   `json:"proto"`
+	Peer     string   `json:"peer"`
+	Xff      []string `json:"xff"`
+	May1     bool     `json:"may1"`
+	Must1    bool     `json:"must1"`
+	May2     bool     `json:"may2"`
+	Must2    bool     `json:"must2"`
+	Outcomes []string `json:"outcomes"`
+
+	Conc    string `json:"conc,omitempty"`
+	Variant string `json:"variant,omitempty"`
+}
+
+func (m *C12Multi) Key() string {
+	return strings.Join(m.T1.Allow, ",") + "|" + strings.Join(m.T1.Deny, ",") + "||" + strings.Join(m.T2.Allow, ",") + "|" + strings.Join(m.T2.Deny, ",") +
+		fmt.Sprintf("||%v%v", m.Up1, m.Up2)
+}
+
+func (m *C12Multi) Allowed(o string) bool {
+	for _, x := range m.Outcomes {
+		if x == o {
+			return true
+		}
+	}
+	return false
+}
+
+// RefereeMulti re-derives the per-target bounds with net/netip and compares them with the case.
+func (cc *C12Conc) RefereeMulti(m *C12Multi) error {
+	for i, t := range []C12Rules{m.T1, m.T2} {
+		c := &C12Case{Allow: t.Allow, Deny: t.Deny, Proto: m.Proto, Peer: m.Peer, Xff: m.Xff}
+		may, must, err := cc.Referee(c)
+		wm, wu := m.May1, m.Must1
+		if i == 1 {
+			wm, wu = m.May2, m.Must2
+		}
+		if err != nil || may != wm || must != wu {
+			return fmt.Errorf("target %d: referee (%s) may=%v must=%v err=%v, specification may=%v must=%v", i+1, cc.Name, may, must, err, wm, wu)
+		}
+	}
+	return nil
+}
+
+func (m *C12Multi) Features(sub, clause string) map[string]any {
+	return map[string]any{"sub": sub, "clause": clause, "cause": "multi-target", "instances": fmt.Sprintf("up1=%v,up2=%v", m.Up1, m.Up2)}
+}
+
+func (m *C12Multi) Text(cc *C12Conc) string {
+	st := func(up bool) string {
+		if up {
+			return "up"
+		}
+		return "DOWN"
+	}
+	var xs []string
+	for _, x := range m.Xff {
+		xs = append(xs, cc.Addr[x])
+	}
+	return fmt.Sprintf("route with target 1 (opts %q, instance %s) and target 2 (opts %q, instance %s); client %s, X-Forwarded-For %v",
+		cc.Opts(m.T1.Allow, m.T1.Deny, ""), st(m.Up1), cc.Opts(m.T2.Allow, m.T2.Deny, ""), st(m.Up2), cc.Addr[m.Peer], xs)
 }
